@@ -40,6 +40,13 @@ Build(s, menu, base, code) ==
     IF s[1] = "o" THEN LeafOf(menu, base, code)
     ELSE IF s[1] = "m" THEN <<"m", [i \in 1..Len(s[2]) |-> <<KeyName[i], Build(s[2][i], menu, base, 4 * code + i)>>]>>
     ELSE <<s[1], [i \in 1..Len(s[2]) |-> Build(s[2][i], menu, base, 4 * code + i)]>>
+\* every dict of x turned into an OrderedDict whose keys were inserted in reverse (not sorted) order
+RECURSIVE Ord(_)
+Ord(x) == IF Tag(x) = "m" THEN <<"om", [i \in 1..Width(x) |-> <<Pay(x)[Width(x) + 1 - i][1], Ord(Pay(x)[Width(x) + 1 - i][2])>>]>>
+          ELSE IF IsSeq(x) THEN <<Tag(x), [i \in 1..Width(x) |-> Ord(Pay(x)[i])]>>
+          ELSE x
+RECURSIVE HasWideDict(_)
+HasWideDict(s) == s[1] # "o" /\ ((s[1] = "m" /\ Len(s[2]) >= 2) \/ \E i \in 1..Len(s[2]) : HasWideDict(s[2][i]))
 X(s)    == Build(s, "int", 0, 0)
 Same(s) == Build(s, "int", 1000, 0)
 =============================================================================
